@@ -3,6 +3,9 @@ import Nsq.Model.Chan
 import Nsq.Model.ChanNsqd
 import Nsq.Model.ChanInv
 import Nsq.Model.Pump
+import Nsq.Model.TopicPause
+import Nsq.Model.TopicEph
+import Nsq.Model.ChanStats
 /-! Driver for engine E2 (nsqd / topic / channel / client state machine).
 One operation per input line, one canonical answer line out (DESIGN Appendix B). -/
 open Nsq Nsq.Line
@@ -139,6 +142,82 @@ def apply (s : State) (op : Nsq.Model.ChanNsqd.Op) (sorted : Bool := false) : St
   let r := step s op
   (r.1, if sorted then showSorted r.2 else showOut r.2)
 
+/-- `statsq` lines (audit B14): the rows `Nsq.Model.ChanStats.rows fmt (filterSnap ft fc incl (snapshot s))` — the
+very function `Props.C13.render_agree` / `render_complete` are about — in a canonical form the harness also derives
+from the real `/stats` answer (JSON or text) under the same filter -/
+def statsqLine (s : State) (fmt ft fc incl : String) : String :=
+  open Nsq.Model.ChanStats in
+  let f : Fmt := if fmt == "json" then .json else .text
+  let inc := incl == "1"
+  let rs := rows f (filterSnap (nat? ft) (nat? fc) inc (snapshot s))
+  let key (r : Row) : Nat × Nat := (r.key.1, match r.key.2 with | none => 0 | some c => c + 1)
+  let srt := sortBy (fun (a b : Row) => (key a).1 < (key b).1 || ((key a).1 == (key b).1 && (key a).2 < (key b).2)) rs
+  let nums (l : List Int) : String := joinSp (l.map toString)
+  let one (r : Row) : String :=
+    match r.key.2 with
+    | none => s!"T{r.key.1} {nums r.nums}" ++ (match r.jsonOnly with | [] => "" | l => s!" b={nums l}")
+    | some c =>
+      let cls := sortBy (· < ·) (r.clients.map (fun cl => s!"{cl.rdy}:{cl.inFlight}:{cl.msgs}:{cl.fin}:{cl.req}"))
+      s!"C{r.key.1}/{c} {nums r.nums}" ++ (match r.jsonOnly with | [] => "" | l => s!" n={nums l}") ++
+        (if inc then " cl=[" ++ "|".intercalate cls ++ "]" else "")
+  if srt.isEmpty then "-" else "; ".intercalate (srt.map one)
+
+/-- one token of a `tpause` line (leg `busypause`, audit A10): a micro-step of `Nsq.Model.TopicPause` -/
+def tpTok (w : String) : Option Nsq.Model.TopicPause.Op :=
+  open Nsq.Model.TopicPause in
+  match w with
+  | "u" => some .updAck
+  | "s" => some .start
+  | "A" => some .pauseAck
+  | "S0" => some (.storeFlag false)
+  | "S1" => some (.storeFlag true)
+  | _ =>
+    match w.toList with
+    | 'm' :: r => (nat? (String.ofList r)).map .mapChange
+    | 'p' :: r => (nat? (String.ofList r)).map .pub
+    | 'f' :: r => (nat? (String.ofList r)).map .fan
+    | _ => none
+
+/-- replay a schedule through the topic-pause model (hand-shake on): `+` accepted, `-` refused, `?` unknown token -/
+def tpRun (s : Nsq.Model.TopicPause.St) : List String → String
+  | [] => ""
+  | w :: ws => match tpTok w with
+    | none => "?" ++ tpRun s ws
+    | some op =>
+      let r := Nsq.Model.TopicPause.step true s op
+      (if r.2 then "+" else "-") ++ tpRun r.1 ws
+
+/-- `teph eph=<0|1> cap=<mem-queue-size> size=<body bytes> tok…` (leg `ephtopic`, audit A5): publishes to ONE fresh topic
+while nothing is pumped, through `Nsq.Model.TopicEph.stepE` — `pubE` (→ `putTE`) for an `#ephemeral` topic, the base model's
+`pub` for a durable one. Token `p` = publish (pump not receiving), `P` = publish while the pump is receiving (matters with cap 0).
+Answer: per token `k` (kept: the topic queue grew) / `d` (dropped) / `R` (refused), then the topic's counters and depth. -/
+def tephDepth (es : Nsq.Model.TopicEph.ES) : Nat :=
+  match findT es.s.topics 1 with
+  | some tp => tp.queue.length
+  | none => 0
+
+def tephRun (eph : Bool) (size : Nat) (es : Nsq.Model.TopicEph.ES) : List String → String
+  | [] => match findT es.s.topics 1 with
+    | some tp => s!" mc={tp.msgCount} mb={tp.msgBytes} depth={tp.queue.length}"
+    | none => " no-topic"
+  | w :: ws =>
+    if w != "p" && w != "P" then "?" ++ tephRun eph size es ws else
+    let op : Nsq.Model.TopicEph.EOp := if eph then .pubE 1 size 0 {} (w == "P") else .base (.pub 1 size)
+    let r := Nsq.Model.TopicEph.stepE es op
+    let letter := match r.2 with
+      | .ids _ => if tephDepth r.1 > tephDepth es then "k" else "d"
+      | _ => "R"
+    letter ++ tephRun eph size r.1 ws
+
+def tephLine (e c sz : String) (toks : List String) : String :=
+  if !(e.startsWith "eph=" && c.startsWith "cap=" && sz.startsWith "size=") then "bad-op" else
+  match nat? (e.drop 4).toString, nat? (c.drop 4).toString, nat? (sz.drop 5).toString with
+  | some e, some cap, some size =>
+    let es0 : Nsq.Model.TopicEph.ES := { s := { conf := { memq := cap } } }
+    let es1 := (Nsq.Model.TopicEph.stepE es0 (if e == 1 then .createEphTopic 1 else .base (.createTopic 1))).1
+    tephRun (e == 1) size es1 toks
+  | _, _, _ => "bad-op"
+
 def stepLine (s : State) (line : String) : State × String :=
   match words line with
   | ["conf", memq, maxrdy, maxmsgto, maxreq] =>
@@ -232,6 +311,9 @@ def stepLine (s : State) (line : String) : State × String :=
   | ["inv"] => (s, Nsq.Model.ChanInv.invReport s)
   | ["rchan", eph, memq, mem, dq, mc, q, ifs, dfs, cls] => (s, rchanCheck eph memq mem dq mc q ifs dfs cls)
   | ["reset"] => ({}, "ok")
+  | "tpause" :: toks => (s, tpRun {} toks)
+  | "teph" :: e :: c :: sz :: toks => (s, tephLine e c sz toks)
+  | ["statsq", fmt, ft, fc, incl] => (s, statsqLine s fmt ft fc incl)
   | _ => (s, "bad-op")
 
 /-- lines of the pump / output-buffer leg (`P …`, harness/e2/e2_pump_test.go) -/
